@@ -692,3 +692,41 @@ Proof.
   cbv zeta. cbn [codes trackcount]. pose proof (cp_compile_weight c root) as H. cbv zeta in H.
   unfold G_ensure_factor. lia.
 Qed.
+
+(* every state of the limited run has a twin, at the same code position, in the run with the
+   more permissive limit: control-flow safety need only be known for the unlimited engine *)
+Lemma cp_reach_transfer e p L L' : lim_le L L' ->
+  forall s1, cp_reach e p L s1 -> exists s2, cp_reach e p L' s2 /\ simrel L s1 s2.
+Proof.
+  intros HL. induction 1 as [s0 s H0 Hg|s s' Hr IH Hs].
+  - assert (HR : simrel L s0 s0) by (split; [apply eqv_refl|left; reflexivity]).
+    pose proof (goto_sim p L L' HL s0 s0 0 HR) as S. rewrite Hg in S.
+    apply res_rel_ok_inv in S. destruct S as (b & E & R).
+    exists b. split; [eapply cp_reach_start; eassumption|exact R].
+  - destruct IH as (s2 & Hr2 & HR).
+    pose proof (step_sim e p L L' HL s s2 HR) as S. rewrite Hs in S.
+    apply res_rel_ok_inv in S. destruct S as (o2 & E & R).
+    destruct o2 as [b|b|c|w]; cbn [out_rel] in R; try contradiction.
+    exists b. split; [eapply cp_reach_step; eassumption|exact R].
+Qed.
+
+Theorem cp_limit_dichotomy_unl e p L fuel rtl start prevlen :
+  cp_need (codes p) 0 <= trackcount p * G_ensure_factor ->
+  (forall s, cp_reach e p (-1) s -> exists w, cp_boundary (codes p) (pc s) w) ->
+  let r1 := vm_find e p L fuel rtl start prevlen in
+  let r2 := vm_find e p (-1) fuel rtl start prevlen in
+  r1 = Err E_StackLimit \/
+  match r1, r2 with
+  | Ok a, Ok b => same_result a b
+  | Err c, Err c' => c = c'
+  | Crash w, Crash w' => w = w'
+  | Fuel, Fuel => True
+  | _, _ => False
+  end.
+Proof.
+  intros Hw Hcf. apply cp_limit_dichotomy; [exact Hw|].
+  intros s Hr. assert (HL : lim_le L (-1)) by (left; lia).
+  destruct (cp_reach_transfer e p L (-1) HL s Hr) as (s2 & Hr2 & [HE _]).
+  destruct (Hcf s2 Hr2) as [w Hb]. exists w. unfold eqv in HE. replace (pc s) with (pc s2) by (symmetry; tauto).
+  exact Hb.
+Qed.
